@@ -326,7 +326,7 @@ def run(ctx):
         if kk not in seen:
             seen.add(kk)
             sel.append(b)
-    n_all = 240 if quick else 2500
+    n_all = 240 if quick else 2000
     n_api = 20 if quick else 150
     sel = sel[:n_all]
     # API mode (gcc) for a sample; prefer chains that declare functions / variables / constants
